@@ -162,6 +162,7 @@ package gocql
 
 //@ func (f *framer) setLength
 //@   props C03 C18
+//@   inline
 //@   requires ((f.proto > 2 ==> f.headSize == 9) && (f.proto <= 2 ==> f.headSize == 8)) && len(f.buf) >= f.headSize
 //@   modifies f.buf[*]
 //@   ensures be32(f.buf, f.headSize-4) == uint32(length)
@@ -236,7 +237,10 @@ package gocql
 
 //@ func (f *framer) readFrame
 //@   props C04 C05 C18
+//@   count_calls Decode
 //@   requires head != nil
+//@   ensures[C18] Decode_calls > 0 ==> old(head.flags)&0x01 != 0
+//@   ensures[C18] result == nil && old(head.flags)&0x01 != 0 ==> Decode_calls == 1
 //@   assume ErrFrameTooBig != nil
 //@   alloc_bound 256*1024*1024
 //@   ensures result == nil ==> f.header == head && old(head.length) >= 0 && old(head.length) <= 256*1024*1024
@@ -629,9 +633,14 @@ package gocql
 //@   props C05
 //@   requires s.conn != nil && ctx != nil && s.conn.cfg != nil
 
+// A compressor is kept only if the server advertised its name in SUPPORTED (spec §4.1.1 STARTUP).
 //@ func (s *startupCoordinator) startup
 //@   props C05 C18 C20
+//@   count_calls Name
 //@   requires s.conn != nil && ctx != nil && s.conn.cfg != nil
+//@   before[C18] write: s.conn.compressor != nil ==> s.conn.compressor == old(s.conn.compressor) && haskey(m, "COMPRESSION")
+//@   loop 0: invariant !haskey(m, "COMPRESSION") && Name_calls == 1 && s.conn.compressor == old(s.conn.compressor) && s.conn.compressor != nil
+//@   loop 0: exit haskey(m, "COMPRESSION") ==> exists(k, 0 <= k && k < old(len(supported["COMPRESSION"])), old(supported["COMPRESSION"][k]) == Name_ret0)
 
 //@ func (s *startupCoordinator) authenticateHandshake
 //@   props C05 C20
